@@ -393,6 +393,11 @@ let () =
          | None -> "NOSPEC")
     | _ -> "BADARGS")
 
+let () =
+  register "polycarbon" (function
+    | [name] -> (match parse_poly_carbon (explode name) with Some t -> "S" ^ implode t | None -> "NONE")
+    | _ -> "BADARGS")
+
 (* ------------------------------------------------------------------ skeleton changes (C14) *)
 let () =
   let yes b = if b then "1" else "0" in
